@@ -260,6 +260,10 @@ func serverDeviations() []srvDev {
 		{name: "nbf-past", expect: "accept", mut: setTime("nbf", func(n, _ int64) string { return fmt.Sprint(n - 30) })},
 		{name: "nbf-string", expect: "reject", mut: setRaw("nbf", `"17"`)},
 		{name: "nbf-far-future-exponent", expect: "reject", mut: setRaw("nbf", "4e9")},
+		// numbers of seconds beyond int64: not timestamps (the library's int64(float64) of them is implementation-defined)
+		{name: "nbf-beyond-int64", expect: "reject", mut: setRaw("nbf", "1e300")},
+		{name: "exp-beyond-int64", expect: "reject", mut: setRaw("exp", "1e300")},
+		{name: "iat-beyond-int64", expect: "reject", mut: setRaw("iat", "1e300")},
 		{name: "iat-absent", expect: "accept", mut: delClaim("iat")},
 		{name: "iat-string", expect: "reject", mut: setRaw("iat", `"now"`)},
 		{name: "iat-bool", expect: "reject", mut: setRaw("iat", `true`)},
@@ -702,6 +706,10 @@ func verifyDeviations() []verDev {
 		{name: "nbf-past", expect: "accept", mut: setTime("nbf", func(n, _ int64) string { return fmt.Sprint(n - 30) })},
 		{name: "nbf-string", expect: "reject", mut: setRaw("nbf", `"17"`)},
 		{name: "nbf-far-future-exponent", expect: "reject", mut: setRaw("nbf", "4e9")},
+		// numbers of seconds beyond int64: not timestamps (the library's int64(float64) of them is implementation-defined)
+		{name: "nbf-beyond-int64", expect: "reject", mut: setRaw("nbf", "1e300")},
+		{name: "exp-beyond-int64", expect: "reject", mut: setRaw("exp", "1e300")},
+		{name: "iat-beyond-int64", expect: "reject", mut: setRaw("iat", "1e300")},
 		{name: "iat-absent", expect: "accept", mut: del("iat")},
 		{name: "iat-string", expect: "reject", mut: setRaw("iat", `"x"`)},
 		{name: "maxage-config-100-exceeded", expect: "reject", pre: func(c *Ctx, m *tokMat, kn *cfgKnobs) { kn.maxAge = 100 },
